@@ -159,6 +159,45 @@ pub fn bulk(run: &mut crate::common::Run, n: usize) {
             }
         }
     }
+    // a bare master key (no dimension at all, hence very few bytes after the user list): every
+    // number of users 1..=200 through a round-trip, every key still accepted afterwards
+    {
+        let cc = cosmian_cover_crypt::api::Covercrypt::default();
+        if let Ok((mut msk, _)) = cc.setup() {
+            let star = AccessPolicy::parse("*").unwrap();
+            let mut keys: Vec<UserSecretKey> = vec![];
+            for i in 1..=200usize {
+                match cc.generate_user_secret_key(&mut msk, &star) {
+                    Ok(k) => keys.push(k),
+                    Err(e) => {
+                        run.report(None, "C17.a", &format!("bare master key: key generation #{i} failed: {e}"), json!({"engine": "tracing-bulk"}));
+                        return;
+                    }
+                }
+                let bytes = crate::world::ser(&msk);
+                match std::panic::catch_unwind(|| MasterSecretKey::deserialize(&bytes)) {
+                    Ok(Ok(mut m2)) => {
+                        let ids = WMsk::decode(&crate::world::ser(&m2)).map(|w| w.users.len()).unwrap_or(0);
+                        if ids != i {
+                            run.report(None, "C17.e", &format!("bare master key with {i} users: {ids} identifiers after a round-trip"), json!({"engine": "tracing-bulk"}));
+                            return;
+                        }
+                        if i % 16 == 0 || i < 40 {
+                            let mut k = keys[i - 1].clone();
+                            if let Err(e) = cc.refresh_usk(&mut m2, &mut k, true) {
+                                run.report(None, "C17.e", &format!("bare master key with {i} users: after a round-trip the newest key is refused: {e}"), json!({"engine": "tracing-bulk"}));
+                                return;
+                            }
+                        }
+                    }
+                    _ => {
+                        run.report(None, "C17.e", &format!("a master key without dimensions that registered {i} users is rejected by deserialize: the registrations do not survive serialization"), json!({"engine": "tracing-bulk"}));
+                        return;
+                    }
+                }
+            }
+        }
+    }
     let mut b = crate::ftamper::w1();
     let pols = ["A::x", "A::y && H::lo", "H::hi", "*"];
     let mut keys: Vec<UserSecretKey> = vec![];
